@@ -414,17 +414,30 @@ def r4_child_writes_nothing_of_parent(ctx):
     )
 
 
+def _reaches_after(ctx, oc, m, stmt, target, depth=0):
+    """Does every normal path from `stmt` in m reach a call self.<target>() - in m, or after m returns in every caller
+    of a private helper?"""
+    cfg = cfg_of(ctx, m)
+    targets = [cfg.node_of(s) for s in stmts_calling_self(m.node, target, recv_name(m))]
+    n = cfg.node_of(stmt)
+    if targets and cfg.must_reach(n, targets):
+        return True
+    if depth < 3 and m.name.startswith("_") and not m.name.startswith("__"):
+        callers = [(cm, st) for cm, st in _in_class_callers(ctx, oc, m.name) if cm is not m]
+        if callers and all(_reaches_after(ctx, oc, cm, st, target, depth + 1) for cm, st in callers):
+            return True
+    return False
+
+
 def r5_every_mutator_rebuilds(ctx, rule_note=""):
+    oc = A.function_class(ctx.repo)
     upd = A.update_method(ctx.repo)
     writers = method_table_writers(ctx)
     ctx.require(writers, "no method-table writer found")
     seen = set()
     for m, w, st in writers:
         ctx.touch(m, upd)
-        cfg = cfg_of(ctx, m)
-        targets = [cfg.node_of(s) for s in stmts_calling_self(m.node, upd.name, recv_name(m))]
-        n = cfg.node_of(st)
-        ok = bool(targets) and cfg.must_reach(n, targets)
+        ok = _reaches_after(ctx, oc, m, st, upd.name)
         key = f"{m.key}:{w.attr}"
         if key in seen:
             continue
